@@ -7,7 +7,7 @@ use minijinja::{context, Environment};
 use serde_json::{json, Value as J};
 
 pub const TEXTS_FULL: &[&str] = &[
-    "", " ", "\t", "\n", "\r\n", " \n ", "a", "a\n", "\n a", "{a", "}", "%}", "a b", "  a  ",
+    "", " ", "\t", "\n", "\r\n", " \n ", "a", "a\n", "\n a", "{a", "}", "%}", "a b", "  a  ", "\r", "\r \t ", " \r\n \r ",
 ];
 pub const TEXTS_CORE: &[&str] = &["", " ", "\n", " \n ", "a", "\r\n"];
 
@@ -151,6 +151,7 @@ pub fn model(texts: &[&str], tags: &[Tag], cfg: Cfg) -> String {
         }
         let final_orig = t;
         // right side of the previous tag
+        let mut lone_cr_removed = false;
         if i > 0 {
             let prev = &tags[i - 1];
             match prev.right {
@@ -158,6 +159,8 @@ pub fn model(texts: &[&str], tags: &[Tag], cfg: Cfg) -> String {
                 Mk::Plus => {}
                 Mk::None => {
                     if cfg.trim_blocks && prev.kind != Kind::Var {
+                        // a lone CR counts as the newline following the tag, like LF and CRLF
+                        lone_cr_removed = t.starts_with('\r') && !t.starts_with("\r\n");
                         t = strip_one_newline_front(t);
                     }
                 }
@@ -170,7 +173,11 @@ pub fn model(texts: &[&str], tags: &[Tag], cfg: Cfg) -> String {
                 Mk::Minus => t = t.trim_end(),
                 Mk::Plus => {}
                 Mk::None => {
-                    if cfg.lstrip_blocks && next.kind != Kind::Var && trailing_hws_at_line_start(final_orig, i == 0) {
+                    // a line starts after LF (CRLF included), at the start of the file, or right after a
+                    // lone CR that trim_blocks has just removed; blanks after any other lone CR stay
+                    // (the rules name "the start of a line" and are silent about a bare CR: this is what
+                    // the engine does, written down so that a change of it is noticed)
+                    if cfg.lstrip_blocks && next.kind != Kind::Var && (trailing_hws_at_line_start(final_orig, i == 0) || (lone_cr_removed && t.chars().all(is_hws))) {
                         t = t.trim_end_matches(is_hws);
                     }
                 }
